@@ -229,6 +229,27 @@ func srefAlphabet(level int) []dbx.Txn {
 		opUpdate("R", uR[0], rm.Row{"wmap": rm.MapOf(rm.S("k1"), rm.U(n1[1]), rm.S("k2"), rm.U(n1[1]))}), opUpdate("R", uR[0], rm.Row{"wmap": rm.MapOf(rm.S("k1"), rm.U(n1[0]), rm.S("k2"), rm.U(n1[1]))}), opUpdate("R", uR[0], rm.Row{"cnt": one(8)}))
 	add("R r1.wset a1 removed then added back + cnt:=8",
 		opMutate("R", uR[0], "wset", "delete", uset(n1[0])), opMutate("R", uR[0], "wset", "insert", uset(n1[0])), opUpdate("R", uR[0], rm.Row{"cnt": one(8)}))
+	// mutations naming several elements, of which the column holds some, all or none (depends on the state they meet)
+	add("R r1.sset-={a1,a2}", opMutate("R", uR[0], "sset", "delete", uset(n1[0], n1[1])))
+	add("R r1.wset-={a1,a2}", opMutate("R", uR[0], "wset", "delete", uset(n1[0], n1[1])))
+	add("R r1.wset+={a1,a2}", opMutate("R", uR[0], "wset", "insert", uset(n1[0], n1[1])))
+	add("R r1.kmap delete keys {a1,a2}", opMutate("R", uR[0], "kmap", "delete", uset(n1[0], n1[1])))
+	add("R r1.wmap delete keys {k1,k2}", opMutate("R", uR[0], "wmap", "delete", rm.SetOf(rm.S("k1"), rm.S("k2"))))
+	add("R r1.wmap insert {k1:a1,k2:a2}", opMutate("R", uR[0], "wmap", "insert", rm.MapOf(rm.S("k1"), rm.U(n1[0]), rm.S("k2"), rm.U(n1[1]))))
+	// a chain of non-root rows much longer than the schema has tables, hanging off one reference: dropping that reference
+	// (or the row holding it) collects one link per round
+	{
+		ops := []rm.Op{}
+		for i := srefDeep; i >= 1; i-- {
+			row := rm.Row{"name": str(fmt.Sprintf("d%d", i))}
+			if i < srefDeep {
+				row["peer"] = uset(uu("d", i+1))
+			}
+			ops = append(ops, opInsert("N3", uu("d", i), row))
+		}
+		ops = append(ops, opUpdate("R", uR[0], rm.Row{"s3": uset(uu("d", 1))}))
+		add(fmt.Sprintf("ins N3 chain d1->...->d%d + R r1.s3:=d1", srefDeep), ops...)
+	}
 	// a row inserted and, in the same transaction, changed so that columns end at their default again
 	add("ins PR p1 name=tmp then name:=\"\"", opInsert("PR", uPR[0], rm.Row{"name": str("tmp")}), opUpdate("PR", uPR[0], rm.Row{"name": str("")}))
 	add("ins R 15 name,cnt,wset then back to defaults except imm",
@@ -237,6 +258,9 @@ func srefAlphabet(level int) []dbx.Txn {
 		opMutate("R", uu("1", 5), "wset", "delete", uset(n1[0])))
 	return a
 }
+
+// srefDeep: length of the long garbage-collection chain (the schema has 7 tables)
+const srefDeep = 20
 
 func srefDB(allRoot bool) *schemas.DB { return schemas.MustBuild(srefSchemaJSON(allRoot), nil) }
 
